@@ -6,7 +6,8 @@ from props import netprops
 LEVEL = "other"
 RULE = ("real sockets, no scripted transport: Valve queries against an in-process loopback UDP server (IPv4 and IPv6) that answers the "
         "first k requests of a SPEC-generated exchange and then falls silent, for every k (before the first reply, after each reply), "
-        "timeouts {60, 150 ms}, retries 0..2; elapsed time must stay below (blocking steps that time out, as counted by the model on the "
+        "timeouts {60, 150 ms}, retries 0..2; the same for GameSpy 2 queries (silent / answering server), and Minecraft Java queries against "
+        "a loopback TCP peer that accepts the connection and never writes; elapsed time must stay below (blocking steps that time out, as counted by the model on the "
         "same history) x timeout + slack, the error must be the receive class, the requests the server saw must equal the model's; "
         "byte-exact send/receive round trips for payload sizes 0..65507 over UDP and up to 100 000 over TCP, both families, with and "
         "without truncation by the receive buffer; refused TCP connections; a TCP peer that writes nothing / 1 / 40 / 1500 bytes and then "
@@ -14,9 +15,11 @@ RULE = ("real sockets, no scripted transport: Valve queries against an in-proces
         "much of a reply had arrived). Non-trivial = every case.")
 ASSUMPTIONS = ["scheduling slack of 250 ms + 60 ms per timed-out step is allowed on top of the bound",
                "that SO_RCVTIMEO / connect_timeout are honoured by the OS is measured here, not proved"]
-TRUSTED = ["Lean theorem C12_valve_blocking_bound gives the number of blocking steps that can time out; the harness measures wall time"]
+TRUSTED = ["Lean theorems C12_valve_blocking_bound, C12_gs2_blocking_bound, C12_minecraft_java_blocking_bound / _silent_server give the number of "
+           "blocking steps that can time out; the harness measures wall time"]
 HAS_PROOF = True
 
+TIMED = ("realudp", "realgs2", "realjava", "realtcp")  # entries whose case line carries the timeout in its 4th word
 SLACK_MS = 250
 PER_STEP_MS = 60
 
@@ -54,6 +57,25 @@ def run(rep, tier, seed, replay=None):
                             cid = f"u{k}"
                             cases.append(f"{cid} realudp {fam} {ms} {eng} {g} {r} {script}")
                             meta[cid] = ("udp", ms, cut, len(ds))
+        # one more UDP family (GameSpy 2: one request, one datagram back) and one TCP family (Minecraft Java, silent peer)
+        for v in [x for x in netprops.valid_cases("gs2", seed + 12, 40) if not x.notwf and x.want.startswith("OK")][: (2 if tier == "quick" else 10)]:
+            ds = v.case().script[0]
+            for cut in range(len(ds) + 1):
+                for fam in ("v4", "v6"):
+                    for ms in ((60,) if tier == "quick" else (60, 150)):
+                        for r in ((0, 2) if tier == "quick" else (0, 1, 2)):
+                            k += 1
+                            script = ",".join(d.hex() for d in ds[:cut]) or "."
+                            cid = f"g{k}"
+                            cases.append(f"{cid} realgs2 {fam} {ms} {r} {script}")
+                            meta[cid] = ("udp", ms, cut, len(ds))
+        for fam in ("v4", "v6"):
+            for ms in ((60,) if tier == "quick" else (60, 150)):
+                for r in ((0, 2) if tier == "quick" else (0, 1, 2, 3)):
+                    k += 1
+                    cid = f"j{k}"
+                    cases.append(f"{cid} realjava {fam} {ms} {r}")
+                    meta[cid] = ("tcp", ms, 0, 0)
         sizes = [0, 1, 1023, 1024, 1025, 1400, 6144, 65507]
         for fam in ("v4", "v6"):
             for size in sizes:
@@ -92,14 +114,14 @@ def run(rep, tier, seed, replay=None):
             # whatever it finally returned
         if len(mp) > 2 and len(ip) > 2 and mp[2].startswith("B") and ip[2].startswith("T"):
             blocked, elapsed = int(mp[2][1:]), int(ip[2][1:])
-            ms = meta.get(cid, ("", int(c.split(" ")[3]) if c.split(" ")[1] in ("realudp", "realtcp") else 0))[1]
+            ms = meta.get(cid, ("", int(c.split(" ")[3]) if c.split(" ")[1] in TIMED else 0))[1]
             bound = blocked * ms + SLACK_MS + PER_STEP_MS * blocked
             rep.count("timed-out-steps:" + str(blocked))
             if elapsed > bound:
                 rep.oracle_failures.append(("timeout-not-bounding:" + c.split(" ")[1], f"took {elapsed} ms; {blocked} blocking step(s) may time out at {ms} ms each: bound {bound} ms", c, i))
-            if blocked > 0 and elapsed < (blocked * ms) * 0.5 and c.split(" ")[1] == "realudp":
+            if blocked > 0 and elapsed < (blocked * ms) * 0.5 and c.split(" ")[1] in TIMED:
                 rep.count("returned-early")
-            if c.split(" ")[1] == "realudp" and blocked > 0 and not ip[0].startswith("ERR PacketReceive") and not ip[0].startswith("OK"):
+            if c.split(" ")[1] in TIMED and blocked > 0 and not ip[0].startswith("ERR PacketReceive") and not ip[0].startswith("OK"):
                 rep.oracle_failures.append(("silence-wrong-error", f"silent server gave {ip[0][:80]}", c, i))
         if c.split(" ")[1] == "realecho" and not i.endswith(",T") :
             rep.oracle_failures.append(("transport-modified-bytes", f"payload not delivered unmodified: {i}", c, i))
